@@ -21,6 +21,10 @@ class LoopSpec:
     unroll: Optional[int] = None          # exact unrolling bound (+ unwinding assertion)
     havoc: tuple = ()                     # extra heap refs / names to havoc
     label: str = ""
+    rebind: Optional[dict] = None         # name -> fn(ex, st) -> V : representation of a loop variable after havoc
+    inv_point: Optional[Callable] = None  # inv_point(lc, j) -> Bool: the invariant additionally holds FOR ALL ints j; proved pointwise
+                                          # at a fresh j0 with the hypothesis instantiated at j0 + d for d in inst_offsets (manual instantiation)
+    inst_offsets: tuple = (0,)
 
 
 @dataclass
